@@ -3,7 +3,7 @@
    verdict of ScraperObs!ConfigValid (valid = Validate must return nil).  checks/E01.py feeds the table to the real
    ControllerConfig.Validate (harness/scraperctl validate) in two units (nanoseconds and seconds). *)
 EXTENDS ScraperObs, TLC, Json
-CONSTANT Range
+Range == -2..2
 VARIABLE x
 CInit == x = 0
 CNext == /\ x = 0 /\ x' = 1
